@@ -18,7 +18,9 @@ C07_TAGS = {"request_never_answered", "answer_without_request", "in_flight_never
 C14_TAGS = {"link_down_notice", "link_down_count", "conn_view", "on_disconnect_calls", "market_notice_count", "market_unknown_exchange"}
 # an account event that comes back in the name of another exchange than the one the request was addressed to; a request or an
 # account item in the name of an exchange without execution link; a manager that was handed a request for a key that is not its own
-C04_TAGS = {"wrong_exchange"}
+# wrong_instrument_name: an exchange was addressed by a name that is not the run's universe's name of the instrument (the first run
+# of a check builds TWO systems in one process: same shape, other market names - a map kept from the first shows in the second)
+C04_TAGS = {"wrong_exchange", "wrong_instrument_name"}
 # the System API hands exactly the commands it was given to the engine, in order (cancel-orders / close-positions with their filter);
 # request_not_sent: a command was handed over and processed, but a request it had to produce for a TRADED exchange was not handed to
 # that exchange's link (BarterSystem has no such step); request_for_data_only: a command made a request for an instrument of the
@@ -44,6 +46,8 @@ def corruptions(keep):
          lambda l: l.get("a") == "SendOpen", lambda l: {"a": "SendFail", "c": l["c"], "x": l["x"], "k": "open", "why": "no_link", "foreign": []}),
         ("wrong_exchange", "an execution manager that was handed a request for a key that is not its own",
          lambda l: l.get("a") == "Quiescent", lambda l: dict(l, down=["kraken"], foreign=["kraken"])),
+        ("wrong_instrument_name", "an open rejected by the exchange for an instrument name it does not know",
+         lambda l: l.get("a") == "Process" and l.get("kind") == "open_filled", lambda l: dict(l, kind="open_failed", why="instrument_invalid")),
         ("market_notice_count", "one market notice more put into the stream than the engine processed",
          lambda l: l.get("a") == "LinkDownCount",
          lambda l: dict(l, mnotices=dict(l.get("mnotices", {}), kraken=l.get("mnotices", {}).get("kraken", 0) + 1))),
@@ -73,20 +77,30 @@ def run(ctx, own_tags, runs=None, fresh=False):
     with open(merged, "w") as f, open(merged_f, "w") as ff:
         for k in range(runs):
             out, outf = ctx.path("trace_system_%d.ndjson" % k), ctx.path("trace_system_fresh_%d.ndjson" % k)
+            # (run 0: the same process then builds a second, small system over a universe of the same shape under other names)
+            out2 = ctx.path("trace_system_%d_second.ndjson" % k)
             info = ctx.harness("system", "record", "--seed", ctx.seed * 100 + k, "--rounds", 80 if ctx.quick else 120,
-                               "--latency", k % 4, "--out", out, "--fresh-out", outf, timeout=300)
+                               "--latency", k % 4, "--out", out, "--fresh-out", outf, *(["--out2", out2] if k == 0 else []), timeout=300)
             stats["runs_data_only_" + str(info.get("data_only_position"))] = stats.get("runs_data_only_" + str(info.get("data_only_position")), 0) + 1
             for c in ("market_notices", "market_notices_data_only", "market_items_data_only", "filter_commands_matching_data_only",
                       "on_disconnect_calls", "commands_spanning_both_exchanges", "links_killed"):
                 stats[c] = stats.get(c, 0) + int(info.get(c, 0))
             # (the exchanges the run's engine tracks, in index order: the traded ones and the data-only one)
-            f.write(json.dumps({"a": "Reset", "run": k, "exch": info.get("exchanges", [])}) + "\n")
+            f.write(json.dumps({"a": "Reset", "run": k, "universe": 1, "exch": info.get("exchanges", []), "names": info.get("names", [])}) + "\n")
             for l in ctx.read_trace(out):
                 f.write(json.dumps(l) + "\n")
                 n_lines += 1
             for l in ctx.read_trace(outf):
                 l["run"] = k
                 ff.write(json.dumps(l) + "\n")
+            if "second" in info:
+                sec = info["second"]
+                stats["second_systems_in_one_process"] = stats.get("second_systems_in_one_process", 0) + 1
+                stats["second_system_opens_filled"] = stats.get("second_system_opens_filled", 0) + int(sec.get("opens_filled", 0))
+                f.write(json.dumps({"a": "Reset", "run": k, "universe": 2, "exch": sec.get("exchanges", []), "names": sec.get("names", [])}) + "\n")
+                for l in ctx.read_trace(out2):
+                    f.write(json.dumps(l) + "\n")
+                    n_lines += 1
     rp = {"kind": "system", "seed": ctx.seed}
     if own_tags:
         # (an anomaly that belongs to another property's verdict is not this check's business)
